@@ -5,6 +5,11 @@ helpers they share (frame sampling + label indexing), on the exact lattice (time
 on a decimal stream with the default 0.1 s frame, and on ALL pairs of restricted-growth label sequences of
 small length realised as unit-frame segments (exhaustive in the thorough tier).
 
+Regeneration: `_contingency_matrix`, `_adjusted_rand_index`, the bodies of `pairwise` / `rand_index` / `ari`, `_entropy`,
+`_mutual_info_score`, `_normalized_mutual_info_score`, `nce`, `vmeasure` are re-translated from segment.py on every run
+(translator part `segindex`) and proved equal to the hand model (Props/C16_GenIndex.lean); suite `gen_segindex` runs the
+GENERATED definitions (driver op `gen.segindex`) against the real private / public functions on label sequences.
+
 Oracle (the property itself on the real code): an independent computation of every score from the two
 frame-label sequences (own sampler, collections.Counter, fractions, math.log / math.comb), and the stated
 identities (vmeasure == nce(marginal=True), case-insensitivity, MI symmetry, V = harmonic mean, ARI = 1 on
@@ -22,7 +27,10 @@ from mir_eval import segment as S
 from core import Case
 
 PID = "C16"
-LEAN_MODULES = ["MirProofs.Props.C16"]
+LEAN_MODULES = ["MirProofs.Props.C16", "MirProofs.Props.C16_GenIndex"]
+# segindex: _contingency_matrix, _adjusted_rand_index and the bodies of pairwise / rand_index / ari regenerated from the
+# source (lean/MirGen/SegIndex.lean) and proved equal to the hand model (Props/C16_GenIndex.lean); scalars: util.f_measure
+TRANSLATOR_PARTS = ["segindex", "scalars"]
 RULE = ("valid labelled segmentations with equal span starting at 0 on the 1/32 lattice (dyadic frame sizes) "
         "and on a decimal stream (0.1 s frames, boundaries >= 1e-2 from the frame grid); thorough: all pairs of "
         "restricted-growth label sequences of <= 8 frames over <= 3 labels (exact metrics: every pair; entropy "
@@ -36,6 +44,13 @@ ASSUMPTIONS = [
     "max(H)-EMI at rounding level, i.e. both partitions all-singletons) are compared through numerator and "
     "tolerance 1e-9 + 4e-16/|denominator| (DESIGN 2.3); they are not 'valid' inputs of the property",
     "both annotations have exactly equal end times (np.allclose-equal but different ends are outside the model)",
+    "translator segindex + run-time library MirModel/PyMat.lean: the reading of NumPy/SciPy primitives (np.unique = sorted "
+    "distinct values, coo_matrix(...).toarray() sums duplicates and raises ValueError on unequal index lengths, a NumPy "
+    "scalar never raises on '/', Python floats raise ZeroDivisionError, comb(n, 2, exact=1) = n(n-1)/2, integer-valued "
+    "float arrays are exact below 2^53, np.log2 = log/log 2, no broadcasting between agreement matrices of different "
+    "size) is assumed, and exercised by suite gen_segindex on every run; validate_structure, util.intervals_to_samples, "
+    "util.index_labels and util.f_measure on NumPy scalars are externs bound to the hand model (the last one tied to the "
+    "translated util.f_measure on finite arguments by f_measure_np_finite)",
     "AMI's expected-MI term: the model's transliterated loop is proved equal (over the reals) to the hypergeometric "
     "expectation with binomial coefficients (emi_textbook); the weights over the loop's range plus the k = 0 weight "
     "sum to 1 (hypergeometric_weights_sum_one, Vandermonde), so the loop is the expectation over the whole support "
@@ -564,8 +579,161 @@ def rgs_flags(a, b):
     return ami_ill, nmi_ill, (n >= 2 and (ka > 1 or kb > 1))
 
 
+# ----------------------------------------------------------------------------------------
+# the index functions as REGENERATED from the source (driver op `gen.segindex`, lean/MirGen/SegIndex.lean) vs the real
+# functions: exercises the translator's own semantic assumptions (np.unique(return_inverse) + COO scatter, NumPy-scalar
+# vs Python division, comb, the chained == of the special cases) on label sequences directly
+
+def _seq_info(fn, a, b, beta="1"):
+    """replayable description + what `classify` needs to turn a disagreement into an oracle input"""
+    return {"op": "gen.segindex", "fn": fn, "seq_ref": [int(x) for x in a], "seq_est": [int(x) for x in b], "beta": str(beta)}
+
+
+def _gen_private_cases(a, b, tag):
+    """the two private functions on the index arrays themselves"""
+    ya, yb = np.array(a, dtype=int), np.array(b, dtype=int)
+    nontriv = len(a) >= 2 and (len(set(a)) > 1 or len(set(b)) > 1)
+    yield Case("gen.segindex", ["_contingency_matrix", list(a), list(b)],
+               lambda ya=ya, yb=yb: S._contingency_matrix(ya, yb),
+               tag=tag + " contingency", info=_seq_info("_contingency_matrix", a, b), nontrivial=nontriv)
+    yield Case("gen.segindex", ["_adjusted_rand_index", list(a), list(b)],
+               lambda ya=ya, yb=yb: S._adjusted_rand_index(ya, yb),
+               tag=tag + " ari", info=_seq_info("_adjusted_rand_index", a, b), nontrivial=nontriv)
+
+
+def _gen_entropy_cases(a, b, rng, tag, beta=Fr(1)):
+    """the translated entropy family (Float instance): _entropy, _mutual_info_score (computing the table itself and
+    with a pre-computed one), nce (both normalisations) and vmeasure on the unit-frame realisation"""
+    ya, yb = np.array(a, dtype=int), np.array(b, dtype=int)
+    n = len(a)
+    nontriv = n >= 2 and (len(set(a)) > 1 or len(set(b)) > 1)
+    yield Case("gen.segindex", ["_entropy", list(a)], lambda ya=ya: S._entropy(ya),
+               tag=tag + " entropy", info=_seq_info("_entropy", a, a), nontrivial=len(set(a)) > 1)
+    yield Case("gen.segindex", ["_mutual_info_score", list(a), list(b), None],
+               lambda ya=ya, yb=yb: S._mutual_info_score(ya, yb),
+               tag=tag + " mi", info=_seq_info("_mutual_info_score", a, b), nontrivial=nontriv)
+    if n != len(b) or (len(set(a)) == 1) == (len(set(b)) == 1):
+        # (a zero-entropy side against a split one floors the denominator at 1e-10 and divides rounding noise by it:
+        #  ill-conditioned, see ASSUMPTIONS; compared through the public function's suites only)
+        yield Case("gen.segindex", ["_normalized_mutual_info_score", list(a), list(b)],
+                   lambda ya=ya, yb=yb: S._normalized_mutual_info_score(ya, yb),
+                   tag=tag + " nmi", info=_seq_info("_normalized_mutual_info_score", a, b), nontrivial=nontriv)
+    if n == len(b) and n > 0:
+        c = S._contingency_matrix(ya, yb)
+        yield Case("gen.segindex", ["_mutual_info_score", list(a), list(b), c.tolist()],
+                   lambda ya=ya, yb=yb, c=c: S._mutual_info_score(ya, yb, contingency=c.astype(float)),
+                   tag=tag + " mi precomputed", info=_seq_info("_mutual_info_score", a, b), nontrivial=nontriv)
+        rows, arr = _unit(n)
+        rl, el = ["r%d" % v for v in a], ["E%d" % v for v in b]
+        fb = float(beta)
+        marg = rng.random() < 0.5
+        yield Case("gen.segindex", ["nce", rows, rl, rows, el, Fr(1), beta, marg],
+                   lambda: S.nce(arr, rl, arr, el, frame_size=1.0, beta=fb, marginal=marg),
+                   tag=tag + (" nce marginal" if marg else " nce plain"), info=_seq_info("nce", a, b, beta),
+                   nontrivial=nontriv)
+        yield Case("gen.segindex", ["vmeasure", rows, rl, rows, el, Fr(1), beta],
+                   lambda: S.vmeasure(arr, rl, arr, el, frame_size=1.0, beta=fb),
+                   tag=tag + " vmeasure", info=_seq_info("vmeasure", a, b, beta), nontrivial=nontriv)
+
+
+def _gen_public_cases(a, b, rng, tag, beta=Fr(1)):
+    """pairwise / rand_index / ari (translated prologue + core) on the unit-frame realisation of two sequences"""
+    n = len(a)
+    rows, arr = _unit(n)
+    rl, el = ["r%d" % v for v in a], ["E%d" % v for v in b]
+    nontriv = n >= 2 and (len(set(a)) > 1 or len(set(b)) > 1)
+    fb = float(beta)
+    yield Case("gen.segindex", ["pairwise", rows, rl, rows, el, Fr(1), beta],
+               lambda: S.pairwise(arr, rl, arr, el, frame_size=1.0, beta=fb),
+               tag=tag + " pairwise", info=_seq_info("pairwise", a, b, beta), nontrivial=nontriv)
+    yield Case("gen.segindex", ["rand_index", rows, rl, rows, el, Fr(1), beta],
+               lambda: S.rand_index(arr, rl, arr, el, frame_size=1.0, beta=fb),
+               tag=tag + " rand_index", info=_seq_info("rand_index", a, b, beta), nontrivial=nontriv)
+    yield Case("gen.segindex", ["ari", rows, rl, rows, el, Fr(1)],
+               lambda: S.ari(arr, rl, arr, el, frame_size=1.0),
+               tag=tag + " ari_public", info=_seq_info("ari", a, b, beta), nontrivial=nontriv)
+
+
+def suite_gen_segindex(rng, tier, shard, nshards):
+    """ALL pairs of restricted-growth sequences up to 4 (quick) / 6 (thorough) frames over <= 3 labels, random sequences
+    with arbitrary (non-dense, unsorted) index values up to 40 frames, all-distinct / one-label / unequal-length /
+    empty inputs; public functions also on lattice annotations (prologue externs)."""
+    cases = []
+    nmax = 4 if tier == "quick" else 6
+    for n in range(1, nmax + 1):
+        seqs = rgs(n, 3)
+        for a in seqs:
+            for b in seqs:
+                cases += list(_gen_private_cases(a, b, "rgs n=%d" % n))
+                cases += list(_gen_public_cases(a, b, rng, "rgs n=%d" % n))
+                cases += list(_gen_entropy_cases(a, b, rng, "rgs n=%d" % n))
+    # corners
+    for a, b in ([], []), ([3], [7]), ([0, 1], [0]), ([0], [0, 1]), ([], [0]), ([0, 0, 1], [0, 0]), ([1, 1, 1], [2, 2, 2]), \
+            ([0, 1, 2, 3], [3, 2, 1, 0]), ([0, 1, 2, 3], [0, 0, 0, 0]), ([4, 4], [9, 1]):
+        cases += list(_gen_private_cases(a, b, "corner"))
+        cases += list(_gen_entropy_cases(a, b, rng, "corner"))
+    for i, c in enumerate(cases):
+        if i % nshards == shard:
+            yield c
+    # random (every shard draws its own)
+    for _ in range(60 if tier == "quick" else 500):
+        n = rng.choice([2, 3, 5, 8, 8, 13, 21, 40])
+        ka, kb = rng.randint(1, min(n, 6)), rng.randint(1, min(n, 6))
+        pa, pb = rng.sample(range(0, 50), ka), rng.sample(range(0, 50), kb)     # arbitrary index values
+        a = [rng.choice(pa) for _ in range(n)]
+        r = rng.random()
+        if r < 0.15:
+            m = dict(zip(sorted(set(a)), rng.sample(range(0, 50), len(set(a)))))
+            b = [m[v] for v in a]                                                 # the same partition renamed
+        elif r < 0.25:
+            b = list(range(n)) if rng.random() < 0.5 else [pb[0]] * n
+            if rng.random() < 0.5:
+                a = rng.sample(range(0, 60), n)                                   # all distinct
+        else:
+            b = [rng.choice(pb) for _ in range(n)]
+        for c in _gen_private_cases(a, b, "random n=%d" % n):
+            yield c
+        if n <= 13:
+            for c in _gen_public_cases(a, b, rng, "random n=%d" % n, rng.choice([Fr(1), Fr(1, 2), Fr(2)])):
+                yield c
+        for c in _gen_entropy_cases(a, b, rng, "random n=%d" % n, rng.choice([Fr(1), Fr(1, 2), Fr(2)])):
+            yield c
+    # the translated public functions on lattice annotations (validation, empty sides, frame sampling = externs)
+    for _ in range(10 if tier == "quick" else 200):
+        ref, est, fs = rand_pair_E(rng)
+        if rng.random() < 0.1:
+            ref, est = ([], est) if rng.random() < 0.5 else (ref, [])
+        elif rng.random() < 0.1 and est:
+            est = est[:-1] + [(est[-1][0], est[-1][1] + Fr(1, 32), est[-1][2])]      # end mismatch -> ValueError
+        beta = rng.choice([Fr(1), Fr(1, 2), Fr(2)])
+        ri, rl = to_arrays(ref)
+        ei, el = to_arrays(est)
+        f, bb = float(fs), float(beta)
+        margs = model_args(ref, est)
+        info = {"op": "gen.segindex", "ref": [[str(s), str(e), l] for s, e, l in ref],
+                "est": [[str(s), str(e), l] for s, e, l in est], "frame_size": str(fs), "beta": str(beta)}
+        yield Case("gen.segindex", ["pairwise"] + margs + [fs, beta],
+                   lambda ri=ri, rl=rl, ei=ei, el=el, f=f, bb=bb: S.pairwise(ri, rl, ei, el, frame_size=f, beta=bb),
+                   tag="E pairwise", info=dict(info, fn="pairwise"))
+        yield Case("gen.segindex", ["rand_index"] + margs + [fs, beta],
+                   lambda ri=ri, rl=rl, ei=ei, el=el, f=f, bb=bb: S.rand_index(ri, rl, ei, el, frame_size=f, beta=bb),
+                   tag="E rand_index", info=dict(info, fn="rand_index"))
+        yield Case("gen.segindex", ["ari"] + margs + [fs],
+                   lambda ri=ri, rl=rl, ei=ei, el=el, f=f: S.ari(ri, rl, ei, el, frame_size=f),
+                   tag="E ari_public", info=dict(info, fn="ari"))
+        marg = rng.random() < 0.5
+        yield Case("gen.segindex", ["nce"] + margs + [fs, beta, marg],
+                   lambda ri=ri, rl=rl, ei=ei, el=el, f=f, bb=bb, marg=marg: S.nce(ri, rl, ei, el, frame_size=f, beta=bb,
+                                                                                  marginal=marg),
+                   tag="E nce", info=dict(info, fn="nce"))
+        yield Case("gen.segindex", ["vmeasure"] + margs + [fs, beta],
+                   lambda ri=ri, rl=rl, ei=ei, el=el, f=f, bb=bb: S.vmeasure(ri, rl, ei, el, frame_size=f, beta=bb),
+                   tag="E vmeasure", info=dict(info, fn="vmeasure"))
+
+
 SUITES = {"lattice": suite_lattice, "decimal": suite_decimal, "irregular": suite_irregular,
-          "frames": suite_frames, "index_labels": suite_index_labels, "rgs": suite_rgs}
+          "frames": suite_frames, "index_labels": suite_index_labels, "rgs": suite_rgs,
+          "gen_segindex": suite_gen_segindex}
 # stream F: the segment fixture files (real boundary grids and label vocabularies), lattice and 0.1 s frames
 from suites import fixtures as _FX  # noqa: E402
 if "segment_frames" in _FX.SUITES:
@@ -862,8 +1030,41 @@ def _oracle_gen(site):
 
 ORACLES = {site: _oracle_gen(site) for site in CHECKERS}
 
+_GEN_SITES = {"pairwise": ["segment.pairwise"], "rand_index": ["segment.rand_index"], "ari": ["segment.ari"],
+              "_adjusted_rand_index": ["segment.ari"], "nce": ["segment.nce"], "vmeasure": ["segment.vmeasure"],
+              "_entropy": ["segment.mutual_information"], "_mutual_info_score": ["segment.mutual_information"],
+              "_normalized_mutual_info_score": ["segment.mutual_information"],
+              "_contingency_matrix": ["segment.ari", "segment.mutual_information", "segment.nce"]}
+
+
+def _classify_gen(i):
+    """a disagreeing gen.segindex case: the same label sequences (as unit-frame segments) / the same annotations are
+    tried against the definition of the metric(s) the function feeds, on the real code"""
+    sites = _GEN_SITES.get(i.get("fn"), [])
+    if "seq_ref" in i:
+        a, b = i["seq_ref"], i["seq_est"]
+        if len(a) != len(b) or not a:
+            return None     # not a pair of frame sequences of one recording: no valid input of the property
+        inp = {"ref": [[str(k), str(k + 1), "r%d" % v] for k, v in enumerate(a)],
+               "est": [[str(k), str(k + 1), "e%d" % v] for k, v in enumerate(b)],
+               "frame_size": "1", "beta": i.get("beta", "1")}
+    elif i.get("ref") and i.get("est"):
+        inp = {"ref": i["ref"], "est": i["est"], "frame_size": i["frame_size"], "beta": i.get("beta", "1")}
+    else:
+        return None
+    import warnings
+    for site in sites:
+        with warnings.catch_warnings():
+            warnings.simplefilter("ignore")
+            if CHECKERS[site](inp) is not None:
+                return site, inp
+    return (sites[0], inp) if sites else None
+
+
 def classify(suite, d):
     """Map a disagreeing case on *valid* input to (site, oracle input); other suites have no oracle."""
+    if suite == "gen_segindex":
+        return _classify_gen(d.get("info") or {})
     if suite not in ("lattice", "decimal", "rgs", "fixtures.segment_frames"):
         return None
     i = d.get("info") or {}
